@@ -48,6 +48,45 @@ var netNames = []string{"mainnet", "testnet3", "testnet4", "chipnet", "regtest",
 
 const zeroedStr = "zeroed extended key"
 
+// the version identifiers as they were at start-up (deep copies): the reference must not depend on
+// package-level state the code under test could write through
+type netIDs struct{ priv, pub [4]byte }
+
+var savedIDs []netIDs
+
+func saveGlobals() {
+	for _, n := range nets {
+		savedIDs = append(savedIDs, netIDs{n.HDPrivateKeyID, n.HDPublicKeyID})
+	}
+}
+
+// refPrivToPub is chaincfg.HDPrivateKeyToPublicKeyID on the saved table
+func refPrivToPub(v []byte) ([]byte, bool) {
+	for _, id := range savedIDs {
+		if bytes.Equal(v, id.priv[:]) {
+			return clone(id.pub[:]), true
+		}
+	}
+	return nil, false
+}
+
+// globalsIntact checks (and repairs, so later histories are not confused) chaincfg's package-level
+// version arrays and the values of its private->public map, which keys reference but must never write.
+func globalsIntact() (string, bool) {
+	bad := ""
+	for i, n := range nets {
+		if n.HDPrivateKeyID != savedIDs[i].priv || n.HDPublicKeyID != savedIDs[i].pub {
+			bad = fmt.Sprintf("chaincfg %s HDPrivateKeyID/HDPublicKeyID = %x/%x, were %x/%x", netNames[i], n.HDPrivateKeyID, n.HDPublicKeyID, savedIDs[i].priv, savedIDs[i].pub)
+			n.HDPrivateKeyID, n.HDPublicKeyID = savedIDs[i].priv, savedIDs[i].pub
+		}
+		if v, err := chaincfg.HDPrivateKeyToPublicKeyID(savedIDs[i].priv[:]); err == nil && !bytes.Equal(v, savedIDs[i].pub[:]) {
+			bad = fmt.Sprintf("chaincfg.HDPrivateKeyToPublicKeyID(%x) = %x, was %x", savedIDs[i].priv, v, savedIDs[i].pub)
+			copy(v, savedIDs[i].pub[:])
+		}
+	}
+	return bad, bad == ""
+}
+
 func sha256d(b []byte) []byte {
 	h := sha256.Sum256(b)
 	h2 := sha256.Sum256(h[:])
@@ -170,7 +209,7 @@ func (p prims) master(seed []byte, net int) (*pure, int) {
 	if !p.scalarOK(lr[:32]) {
 		return nil, 2
 	}
-	return &pure{ver: clone(nets[net].HDPrivateKeyID[:]), key: lr[:32], cc: lr[32:], fp: []byte{0, 0, 0, 0}, priv: true}, 0
+	return &pure{ver: clone(savedIDs[net].priv[:]), key: lr[:32], cc: lr[32:], fp: []byte{0, 0, 0, 0}, priv: true}, 0
 }
 func (p prims) fromString(dec []byte) (*pure, int) {
 	if len(dec) != 82 {
@@ -234,11 +273,11 @@ func (p prims) child(k *pure, i uint32) (*pure, int) {
 	return &pure{ver: k.ver, key: ck, cc: ilr[32:], fp: fp, depth: k.depth + 1, num: i, priv: k.priv}, 0
 }
 func (p prims) neuter(k *pure) (*pure, int) {
-	v, err := chaincfg.HDPrivateKeyToPublicKeyID(k.ver)
-	if err != nil {
+	v, ok := refPrivToPub(k.ver)
+	if !ok {
 		return nil, 5
 	}
-	return &pure{ver: clone(v), key: p.pubOfPriv(k.key), cc: k.cc, fp: k.fp, depth: k.depth, num: k.num, priv: false}, 0
+	return &pure{ver: v, key: p.pubOfPriv(k.key), cc: k.cc, fp: k.fp, depth: k.depth, num: k.num, priv: false}, 0
 }
 func (k *pure) payload() []byte {
 	var b []byte
@@ -493,243 +532,302 @@ func allZero(b []byte) bool {
 
 // runHistory executes ops on a fresh pool.  Handles are taken modulo the pool size (so that shrunk
 // histories stay executable); operations on an empty pool are skipped.
-func runHistory(ops []opRec, withOracle bool, deep bool) runResult {
-	var res runResult
+type exec struct {
+	res  runResult
+	P    prims
+	pool []*slot
+	deep bool
+	step int
+	ext  []*extBufs // caller-owned buffers handed to NewExtendedKey
+}
+
+// extBufs: the four buffers the caller gave to NewExtendedKey and what they contained
+type extBufs struct {
+	slot               int
+	ver, key, cc, fp   []byte
+	ver0, key0, cc0, fp0 []byte
+}
+
+func newExec(withOracle, deep bool) *exec {
+	e := &exec{deep: deep, step: -1}
 	if withOracle {
-		res.orc = newOracle()
+		e.res.orc = newOracle()
 	}
-	P := prims{res.orc}
-	var pool []*slot
+	e.P = prims{e.res.orc}
+	return e
+}
+
+func (e *exec) live() int {
+	n := 0
+	for _, sl := range e.pool {
+		if sl.pv != nil {
+			n++
+		}
+	}
+	return n
+}
+
+// apply executes one operation.  Handles are taken modulo the pool size (so that shrunk histories stay
+// executable); operations on an empty pool are skipped.
+func (ex *exec) apply(o opRec) {
+	ex.step++
 	setViol := func(v *violation) {
-		if res.viol == nil && v != nil {
-			res.viol = v
+		if ex.res.viol == nil && v != nil {
+			ex.res.viol = v
 		}
 	}
-	for step, o := range ops {
-		needsKey := o.Kind != "NewMaster" && o.Kind != "FromString" && o.Kind != "NewExt"
-		if needsKey && len(pool) == 0 {
-			res.outs = append(res.outs, outcome{kind: "Err", n: 99})
-			res.snaps = append(res.snaps, nil)
-			continue
-		}
-		k := 0
-		var sl *slot
-		if needsKey {
-			k = o.K % len(pool)
-			sl = pool[k]
-		}
-		var got, want outcome
-		push := func(nk *hdkeychain.ExtendedKey, pv *pure) {
-			ns := &slot{real: nk, pv: pv}
-			if pv != nil {
-				ns.shadow = deepCopy(nk)
-			}
-			pool = append(pool, ns)
-			got = outcome{kind: "Created", n: len(pool) - 1}
-		}
-		res.executed++
-		panicked, msg := vh.Catch(func() {
-			switch o.Kind {
-			case "NewMaster":
-				seed := unhex(o.Seed)
-				nk, err := hdkeychain.NewMaster(clone(seed), nets[o.Net])
-				pv, e := P.master(seed, o.Net)
-				want = outcome{kind: "Err", n: e}
-				if e == 0 {
-					want = outcome{kind: "Created", n: len(pool)}
-				}
-				if err != nil {
-					got = outcome{kind: "Err", n: map[error]int{hdkeychain.ErrInvalidSeedLen: 1, hdkeychain.ErrUnusableSeed: 2}[err]}
-				} else {
-					push(nk, pv)
-				}
-			case "FromString":
-				nk, err := hdkeychain.NewKeyFromString(o.Str)
-				pv, e := P.fromString(base58.Decode(o.Str))
-				want = outcome{kind: "Err", n: e}
-				if e == 0 {
-					want = outcome{kind: "Created", n: len(pool)}
-				}
-				if err != nil {
-					c, ok := map[error]int{hdkeychain.ErrInvalidKeyLen: 1, hdkeychain.ErrBadChecksum: 2, hdkeychain.ErrUnusableSeed: 3}[err]
-					if !ok {
-						c = 4
-					}
-					got = outcome{kind: "Err", n: c}
-				} else {
-					push(nk, pv)
-				}
-			case "NewExt":
-				ver, key, cc, fp := unhex(o.Ver), unhex(o.Key), unhex(o.CC), unhex(o.FP)
-				nk := hdkeychain.NewExtendedKey(ver, key, cc, fp, o.Depth, o.Num, o.Priv) // four fresh caller buffers
-				want = outcome{kind: "Created", n: len(pool)}
-				push(nk, &pure{ver: clone(ver), key: clone(key), cc: clone(cc), fp: clone(fp), depth: o.Depth, num: o.Num, priv: o.Priv})
-			case "Child":
-				c, err := sl.real.Child(o.I)
-				var pv *pure
-				if sl.pv == nil { // zeroed key: only "an error" is specified (hardened: ErrDeriveHardFromPublic)
-					want = outcome{kind: "Err", n: 0}
-					if o.I >= hdkeychain.HardenedKeyStart {
-						want.n = 2
-					} else { // what the model will ask its oracle
-						ilr := P.hmac512(make([]byte, sl.zcc), childData(false, nil, o.I))
-						if P.scalarOK(ilr[:32]) {
-							P.pubAdd(ilr[:32], nil)
-						}
-					}
-				} else {
-					var e int
-					pv, e = P.child(sl.pv, o.I)
-					want = outcome{kind: "Err", n: e}
-					if e == 0 {
-						want = outcome{kind: "Created", n: len(pool)}
-					}
-				}
-				if err != nil {
-					got = outcome{kind: "Err", n: classChild(err)}
-				} else {
-					push(c, pv)
-				}
-			case "Neuter":
-				n, err := sl.real.Neuter()
-				var pv *pure
-				if sl.pv == nil || !sl.pv.priv {
-					want = outcome{kind: "Same", n: k}
-				} else {
-					var e int
-					pv, e = P.neuter(sl.pv)
-					want = outcome{kind: "Err", n: e}
-					if e == 0 {
-						want = outcome{kind: "Created", n: len(pool)}
-					}
-				}
-				if err != nil {
-					got = outcome{kind: "Err", n: 5}
-				} else if n == sl.real {
-					got = outcome{kind: "Same", n: k}
-				} else {
-					push(n, pv)
-				}
-			case "SetNet":
-				sl.real.SetNet(nets[o.Net])
-				if sl.pv != nil {
-					sl.shadow.SetNet(nets[o.Net])
-					v := nets[o.Net].HDPublicKeyID[:]
-					if sl.pv.priv {
-						v = nets[o.Net].HDPrivateKeyID[:]
-					}
-					np := *sl.pv
-					np.ver = clone(v)
-					sl.pv = &np
-				}
-				got, want = outcome{kind: "Done"}, outcome{kind: "Done"}
-			case "Zero":
-				kb, pb, cb, fb, _ := sl.real.VerifBuffers()
-				held := [][]byte{kb, pb, cb, fb}
-				names := []string{"key", "pubKey", "chainCode", "parentFP"}
-				before := []string{vh.Hex(kb), vh.Hex(pb), vh.Hex(cb), vh.Hex(fb)}
-				sl.real.Zero()
-				res.zeros++
-				if sl.pv != nil {
-					sl.zcc = len(sl.pv.cc)
-				}
-				sl.pv, sl.shadow = nil, nil
-				for bi, b := range held {
-					if !allZero(b) {
-						setViol(&violation{"C15:zero", "after Zero the buffer that held the " + names[bi] + " still contains non-zero bytes",
-							map[string]interface{}{"after_step": step, "key": fmt.Sprintf("k%d", k), "buffer": names[bi], "before": before[bi], "after": vh.Hex(b)}})
-					}
-					for _, x := range b[len(b):cap(b)] {
-						if x != 0 {
-							res.residue++
-						}
-					}
-				}
-				f := sl.real.VerifFields()
-				_, perr := sl.real.ECPrivKey()
-				if sl.real.String() != zeroedStr || perr == nil || sl.real.IsPrivate() || !f.KeyNil || !f.VersionNil || f.Depth != 0 || f.ChildNum != 0 ||
-					!allZero(f.PubKey) || !allZero(f.ChainCode) || !allZero(f.ParentFP) {
-					setViol(&violation{"C15:zero", "after Zero the key does not report zeroed / still yields a private key / fields are not reset",
-						map[string]interface{}{"after_step": step, "key": fmt.Sprintf("k%d", k), "string": sl.real.String(), "ecprivkey_error": fmt.Sprint(perr), "fields": fmt.Sprintf("%+v", f)}})
-				}
-				got, want = outcome{kind: "Done"}, outcome{kind: "Done"}
-			case "String":
-				s := sl.real.String()
-				if s == zeroedStr {
-					got = outcome{kind: "Zeroed"}
-				} else {
-					d := base58.Decode(s)
-					if len(d) < 5 || !bytes.Equal(sha256d(d[:len(d)-4])[:4], d[len(d)-4:]) {
-						setViol(&violation{"C15:string_format", "String() is not Base58(payload || sha256d(payload)[:4])", map[string]interface{}{"after_step": step, "string": s}})
-						d = append(d, 0, 0, 0, 0)
-					}
-					got = outcome{kind: "Bytes", b: d[:len(d)-4]}
-				}
-				if sl.pv == nil {
-					want = outcome{kind: "Zeroed"}
-				} else {
-					want = outcome{kind: "Bytes", b: sl.pv.payload()}
-				}
-			case "ECPubKey":
-				pk, err := sl.real.ECPubKey()
-				if err != nil {
-					got = outcome{kind: "Err", n: 4}
-				} else {
-					got = outcome{kind: "Bytes", b: pk.SerializeCompressed()}
-				}
-				if sl.pv == nil {
-					P.parsePub(nil)
-					want = outcome{kind: "Err", n: 0}
-				} else if b, e := P.parsePub(P.pub(sl.pv)); e != 0 {
-					want = outcome{kind: "Err", n: e}
-				} else {
-					want = outcome{kind: "Bytes", b: b}
-				}
-			case "ECPrivKey":
-				pk, err := sl.real.ECPrivKey()
-				if err != nil {
-					got = outcome{kind: "Err", n: 1}
-				} else {
-					got = outcome{kind: "Bytes", b: pk.Serialize()}
-				}
-				if sl.pv == nil || !sl.pv.priv {
-					want = outcome{kind: "Err", n: 1}
-				} else {
-					want = outcome{kind: "Bytes", b: sl.pv.key}
-				}
-			case "Address":
-				a, err := sl.real.Address(nets[0])
-				if err != nil {
-					got = outcome{kind: "Err", n: 4}
-				} else {
-					got = outcome{kind: "Bytes", b: a.ScriptAddress()}
-				}
-				if sl.pv == nil {
-					want = outcome{kind: "Bytes", b: P.hash160(nil)}
-				} else {
-					want = outcome{kind: "Bytes", b: P.hash160(P.pub(sl.pv))}
-				}
-			}
-		})
-		if panicked {
-			setViol(&violation{"C15:panic", "operation panicked", map[string]interface{}{"after_step": step, "op": o.text(), "panic": msg}})
-			res.outs = append(res.outs, outcome{kind: "Err", n: 98})
-			res.snaps = append(res.snaps, nil)
-			continue
-		}
-		if !sameOutcome(got, want) {
-			setViol(&violation{"C15:independence", "an operation's result differs from the one determined by the key's own derivation",
-				map[string]interface{}{"after_step": step, "op": o.text(), "got": got.String(), "required": want.String()}})
-		}
-		if want.kind == "Err" && want.n == 0 && got.kind == "Err" {
-			got.n = 0 // unspecified class
-		}
-		res.outs = append(res.outs, got)
-		snap, v := observeAll(pool, step, deep)
-		setViol(v)
-		res.snaps = append(res.snaps, snap)
+	needsKey := o.Kind != "NewMaster" && o.Kind != "FromString" && o.Kind != "NewExt"
+	if needsKey && len(ex.pool) == 0 {
+		ex.res.outs = append(ex.res.outs, outcome{kind: "Err", n: 99})
+		ex.res.snaps = append(ex.res.snaps, nil)
+		return
 	}
-	return res
+	k := 0
+	var sl *slot
+	if needsKey {
+		k = o.K % len(ex.pool)
+		sl = ex.pool[k]
+	}
+	var got, want outcome
+	push := func(nk *hdkeychain.ExtendedKey, pv *pure) {
+		ns := &slot{real: nk, pv: pv}
+		if pv != nil {
+			ns.shadow = deepCopy(nk)
+		}
+		ex.pool = append(ex.pool, ns)
+		got = outcome{kind: "Created", n: len(ex.pool) - 1}
+	}
+	ex.res.executed++
+	panicked, msg := vh.Catch(func() {
+		switch o.Kind {
+		case "NewMaster":
+			seed := unhex(o.Seed)
+			nk, err := hdkeychain.NewMaster(clone(seed), nets[o.Net])
+			pv, e := ex.P.master(seed, o.Net)
+			want = outcome{kind: "Err", n: e}
+			if e == 0 {
+				want = outcome{kind: "Created", n: len(ex.pool)}
+			}
+			if err != nil {
+				got = outcome{kind: "Err", n: map[error]int{hdkeychain.ErrInvalidSeedLen: 1, hdkeychain.ErrUnusableSeed: 2}[err]}
+			} else {
+				push(nk, pv)
+			}
+		case "FromString":
+			nk, err := hdkeychain.NewKeyFromString(o.Str)
+			pv, e := ex.P.fromString(base58.Decode(o.Str))
+			want = outcome{kind: "Err", n: e}
+			if e == 0 {
+				want = outcome{kind: "Created", n: len(ex.pool)}
+			}
+			if err != nil {
+				c, ok := map[error]int{hdkeychain.ErrInvalidKeyLen: 1, hdkeychain.ErrBadChecksum: 2, hdkeychain.ErrUnusableSeed: 3}[err]
+				if !ok {
+					c = 4
+				}
+				got = outcome{kind: "Err", n: c}
+			} else {
+				push(nk, pv)
+			}
+		case "NewExt":
+			ver, key, cc, fp := unhex(o.Ver), unhex(o.Key), unhex(o.CC), unhex(o.FP)
+			nk := hdkeychain.NewExtendedKey(ver, key, cc, fp, o.Depth, o.Num, o.Priv) // four fresh caller buffers
+			want = outcome{kind: "Created", n: len(ex.pool)}
+			push(nk, &pure{ver: clone(ver), key: clone(key), cc: clone(cc), fp: clone(fp), depth: o.Depth, num: o.Num, priv: o.Priv})
+		case "Child":
+			c, err := sl.real.Child(o.I)
+			var pv *pure
+			if sl.pv == nil { // zeroed key: only "an error" is specified (hardened: ErrDeriveHardFromPublic)
+				want = outcome{kind: "Err", n: 0}
+				if o.I >= hdkeychain.HardenedKeyStart {
+					want.n = 2
+				} else { // what the model will ask its oracle
+					ilr := ex.P.hmac512(make([]byte, sl.zcc), childData(false, nil, o.I))
+					if ex.P.scalarOK(ilr[:32]) {
+						ex.P.pubAdd(ilr[:32], nil)
+					}
+				}
+			} else {
+				var e int
+				pv, e = ex.P.child(sl.pv, o.I)
+				want = outcome{kind: "Err", n: e}
+				if e == 0 {
+					want = outcome{kind: "Created", n: len(ex.pool)}
+				}
+			}
+			if err != nil {
+				got = outcome{kind: "Err", n: classChild(err)}
+			} else {
+				push(c, pv)
+			}
+		case "Neuter":
+			n, err := sl.real.Neuter()
+			var pv *pure
+			if sl.pv == nil || !sl.pv.priv {
+				want = outcome{kind: "Same", n: k}
+			} else {
+				var e int
+				pv, e = ex.P.neuter(sl.pv)
+				want = outcome{kind: "Err", n: e}
+				if e == 0 {
+					want = outcome{kind: "Created", n: len(ex.pool)}
+				}
+			}
+			if err != nil {
+				got = outcome{kind: "Err", n: 5}
+			} else if n == sl.real {
+				got = outcome{kind: "Same", n: k}
+			} else {
+				push(n, pv)
+			}
+		case "SetNet":
+			sl.real.SetNet(nets[o.Net])
+			if sl.pv != nil {
+				sl.shadow.SetNet(nets[o.Net])
+				v := savedIDs[o.Net].pub[:]
+				if sl.pv.priv {
+					v = savedIDs[o.Net].priv[:]
+				}
+				np := *sl.pv
+				np.ver = clone(v)
+				sl.pv = &np
+			}
+			got, want = outcome{kind: "Done"}, outcome{kind: "Done"}
+		case "Zero":
+			kb, pb, cb, fb, _ := sl.real.VerifBuffers()
+			held := [][]byte{kb, pb, cb, fb}
+			names := []string{"key", "pubKey", "chainCode", "parentFP"}
+			before := []string{vh.Hex(kb), vh.Hex(pb), vh.Hex(cb), vh.Hex(fb)}
+			sl.real.Zero()
+			ex.res.zeros++
+			if sl.pv != nil {
+				sl.zcc = len(sl.pv.cc)
+			}
+			sl.pv, sl.shadow = nil, nil
+			for bi, b := range held {
+				if !allZero(b) {
+					setViol(&violation{"C15:zero", "after Zero the buffer that held the " + names[bi] + " still contains non-zero bytes",
+						map[string]interface{}{"after_step": ex.step, "key": fmt.Sprintf("k%d", k), "buffer": names[bi], "before": before[bi], "after": vh.Hex(b)}})
+				}
+				for _, x := range b[len(b):cap(b)] {
+					if x != 0 {
+						ex.res.residue++
+					}
+				}
+			}
+			f := sl.real.VerifFields()
+			_, perr := sl.real.ECPrivKey()
+			if sl.real.String() != zeroedStr || perr == nil || sl.real.IsPrivate() || !f.KeyNil || !f.VersionNil || f.Depth != 0 || f.ChildNum != 0 ||
+				!allZero(f.PubKey) || !allZero(f.ChainCode) || !allZero(f.ParentFP) {
+				setViol(&violation{"C15:zero", "after Zero the key does not report zeroed / still yields a private key / fields are not reset",
+					map[string]interface{}{"after_step": ex.step, "key": fmt.Sprintf("k%d", k), "string": sl.real.String(), "ecprivkey_error": fmt.Sprint(perr), "fields": fmt.Sprintf("%+v", f)}})
+			}
+			got, want = outcome{kind: "Done"}, outcome{kind: "Done"}
+		case "String":
+			s := sl.real.String()
+			if s == zeroedStr {
+				got = outcome{kind: "Zeroed"}
+			} else {
+				d := base58.Decode(s)
+				if len(d) < 5 || !bytes.Equal(sha256d(d[:len(d)-4])[:4], d[len(d)-4:]) {
+					setViol(&violation{"C15:string_format", "String() is not Base58(payload || sha256d(payload)[:4])", map[string]interface{}{"after_step": ex.step, "string": s}})
+					d = append(d, 0, 0, 0, 0)
+				}
+				got = outcome{kind: "Bytes", b: d[:len(d)-4]}
+			}
+			if sl.pv == nil {
+				want = outcome{kind: "Zeroed"}
+			} else {
+				want = outcome{kind: "Bytes", b: sl.pv.payload()}
+			}
+		case "ECPubKey":
+			pk, err := sl.real.ECPubKey()
+			if err != nil {
+				got = outcome{kind: "Err", n: 4}
+			} else {
+				got = outcome{kind: "Bytes", b: pk.SerializeCompressed()}
+			}
+			if sl.pv == nil {
+				ex.P.parsePub(nil)
+				want = outcome{kind: "Err", n: 0}
+			} else if b, e := ex.P.parsePub(ex.P.pub(sl.pv)); e != 0 {
+				want = outcome{kind: "Err", n: e}
+			} else {
+				want = outcome{kind: "Bytes", b: b}
+			}
+		case "ECPrivKey":
+			pk, err := sl.real.ECPrivKey()
+			if err != nil {
+				got = outcome{kind: "Err", n: 1}
+			} else {
+				got = outcome{kind: "Bytes", b: pk.Serialize()}
+			}
+			if sl.pv == nil || !sl.pv.priv {
+				want = outcome{kind: "Err", n: 1}
+			} else {
+				want = outcome{kind: "Bytes", b: sl.pv.key}
+			}
+		case "Address":
+			a, err := sl.real.Address(nets[0])
+			if err != nil {
+				got = outcome{kind: "Err", n: 4}
+			} else {
+				got = outcome{kind: "Bytes", b: a.ScriptAddress()}
+			}
+			if sl.pv == nil {
+				want = outcome{kind: "Bytes", b: ex.P.hash160(nil)}
+			} else {
+				want = outcome{kind: "Bytes", b: ex.P.hash160(ex.P.pub(sl.pv))}
+			}
+		}
+	})
+	if panicked {
+		setViol(&violation{"C15:panic", "operation panicked", map[string]interface{}{"after_step": ex.step, "op": o.text(), "panic": msg}})
+		ex.res.outs = append(ex.res.outs, outcome{kind: "Err", n: 98})
+		ex.res.snaps = append(ex.res.snaps, nil)
+		return
+	}
+	if !sameOutcome(got, want) {
+		setViol(&violation{"C15:independence", "an operation's result differs from the one determined by the key's own derivation",
+			map[string]interface{}{"after_step": ex.step, "op": o.text(), "got": got.String(), "required": want.String()}})
+	}
+	if want.kind == "Err" && want.n == 0 && got.kind == "Err" {
+		got.n = 0 // unspecified class
+	}
+	ex.res.outs = append(ex.res.outs, got)
+	snap, v := observeAll(ex.pool, ex.step, ex.deep)
+	setViol(v)
+	ex.res.snaps = append(ex.res.snaps, snap)
+	ex.checkCallerBuffers(setViol)
+	if what, ok := globalsIntact(); !ok {
+		setViol(&violation{"C15:independence", "an operation wrote through a version slice into package-level state shared by all keys",
+			map[string]interface{}{"after_step": ex.step, "op": o.text(), "observation": what}})
+	}
+}
+
+// checkCallerBuffers: the version buffer given to NewExtendedKey is never written; key / chain code /
+// fingerprint buffers are the key's own and change only when that key is zeroed.
+func (e *exec) checkCallerBuffers(setViol func(*violation)) {
+	for _, x := range e.ext {
+		if !bytes.Equal(x.ver, x.ver0) {
+			setViol(&violation{"C15:independence", "the version buffer the caller passed to NewExtendedKey was written through",
+				map[string]interface{}{"after_step": e.step, "key": fmt.Sprintf("k%d", x.slot), "before": vh.Hex(x.ver0), "after": vh.Hex(x.ver)}})
+			copy(x.ver0, x.ver)
+		}
+		if e.pool[x.slot].pv != nil && !(bytes.Equal(x.key, x.key0) && bytes.Equal(x.cc, x.cc0) && bytes.Equal(x.fp, x.fp0)) {
+			setViol(&violation{"C15:independence", "buffers the caller passed to NewExtendedKey changed although that key was not zeroed",
+				map[string]interface{}{"after_step": e.step, "key": fmt.Sprintf("k%d", x.slot)}})
+			x.key0, x.cc0, x.fp0 = clone(x.key), clone(x.cc), clone(x.fp)
+		}
+	}
+}
+
+func runHistory(ops []opRec, withOracle bool, deep bool) runResult {
+	e := newExec(withOracle, deep)
+	for _, o := range ops {
+		e.apply(o)
+	}
+	return e.res
 }
 
 // shrink removes operations greedily while the same monitor still fails.
@@ -776,55 +874,64 @@ func validScalar(r *vh.RNG) []byte {
 	}
 }
 
-func genHistory(r *vh.RNG, steps, maxPool int) []opRec {
-	var ops []opRec
-	// simulate pool size / liveness cheaply by running the prefix (histories are short)
-	poolSize := 0
-	creator := func() opRec {
-		switch r.Intn(10) {
-		case 0, 1, 2, 3:
-			return opRec{Kind: "NewMaster", Seed: vh.Hex(r.Bytes(16 + r.Intn(49))), Net: r.Intn(len(nets))}
-		case 4, 5, 6:
-			// a string produced from an independent derivation (valid), private or public, some depth
-			m, _ := hdkeychain.NewMaster(r.Bytes(32), nets[r.Intn(len(nets))])
-			k := m
-			for d := r.Intn(3); d > 0; d-- {
-				if c, err := k.Child(r.U32() & 0x8000000f); err == nil {
-					k = c
-				}
+func genCreator(r *vh.RNG) opRec {
+	switch r.Intn(10) {
+	case 0, 1, 2, 3:
+		return opRec{Kind: "NewMaster", Seed: vh.Hex(r.Bytes(16 + r.Intn(49))), Net: r.Intn(len(nets))}
+	case 4, 5, 6:
+		// a string produced from an independent derivation (valid), private or public, some depth
+		m, _ := hdkeychain.NewMaster(r.Bytes(32), nets[r.Intn(len(nets))])
+		k := m
+		for d := r.Intn(3); d > 0; d-- {
+			if c, err := k.Child(r.U32() & 0x8000000f); err == nil {
+				k = c
 			}
-			if r.Bool() {
-				k, _ = k.Neuter()
-			}
-			return opRec{Kind: "FromString", Str: k.String()}
-		default:
-			priv := r.Bool()
-			key := validScalar(r)
-			net := nets[r.Intn(len(nets))]
-			ver := net.HDPrivateKeyID[:]
-			if !priv {
-				x, y := bchec.S256().ScalarBaseMult(key)
-				key = compress(x, y)
-				ver = net.HDPublicKeyID[:]
-			}
-			if r.Intn(8) == 0 {
-				ver = r.Bytes(4) // unregistered version: Neuter fails
-			}
-			depth := uint8(r.Intn(4))
-			if r.Intn(10) == 0 {
-				depth = 255
-			}
-			return opRec{Kind: "NewExt", Ver: vh.Hex(ver), Key: vh.Hex(key), CC: vh.Hex(r.Bytes(32)), FP: vh.Hex(r.Bytes(4)), Depth: depth, Num: r.U32(), Priv: priv}
 		}
+		if r.Bool() {
+			k, _ = k.Neuter()
+		}
+		return opRec{Kind: "FromString", Str: k.String()}
+	default:
+		priv := r.Bool()
+		key := validScalar(r)
+		net := r.Intn(len(nets))
+		ver := savedIDs[net].priv[:]
+		if !priv {
+			x, y := bchec.S256().ScalarBaseMult(key)
+			key = compress(x, y)
+			ver = savedIDs[net].pub[:]
+		}
+		if r.Intn(8) == 0 {
+			ver = r.Bytes(4) // unregistered version: Neuter fails
+		}
+		depth := uint8(r.Intn(4))
+		if r.Intn(10) == 0 {
+			depth = 255
+		}
+		return opRec{Kind: "NewExt", Ver: vh.Hex(ver), Key: vh.Hex(key), CC: vh.Hex(r.Bytes(32)), FP: vh.Hex(r.Bytes(4)), Depth: depth, Num: r.U32(), Priv: priv}
 	}
+}
+
+// genHistory generates and executes a history step by step (each choice sees the current pool).
+// Families woven in: derive/neuter then SetNet(another net) on a relative; observe (memoise) then Zero;
+// Zero of public keys; operations on zeroed keys.
+func genHistory(r *vh.RNG, steps, maxPool int, withOracle bool) ([]opRec, runResult) {
+	e := newExec(withOracle, true)
+	var ops []opRec
+	lastCreated := -1
 	for len(ops) < steps {
 		var o opRec
-		if poolSize == 0 || (poolSize < 2 && r.Bool()) {
-			o = creator()
+		n := len(e.pool)
+		room := n < maxPool
+		if n == 0 || (n < 2 && r.Bool()) {
+			o = genCreator(r)
 		} else {
-			k := r.Intn(poolSize)
+			k := r.Intn(n)
+			if lastCreated >= 0 && r.Intn(3) == 0 {
+				k = lastCreated // stay with the relatives of the key just made
+			}
 			switch x := r.Intn(100); {
-			case x < 26:
+			case x < 24 && room:
 				i := uint32(r.Intn(4))
 				if r.Intn(3) == 0 {
 					i += hdkeychain.HardenedKeyStart
@@ -833,45 +940,43 @@ func genHistory(r *vh.RNG, steps, maxPool int) []opRec {
 					i = vh.Pick(r, []uint32{0x7fffffff, 0x80000000, 0xffffffff})
 				}
 				o = opRec{Kind: "Child", K: k, I: i}
-			case x < 42:
+			case x < 38 && room:
 				o = opRec{Kind: "Neuter", K: k}
-			case x < 56:
+			case x < 52:
 				o = opRec{Kind: "Zero", K: k}
 			case x < 64:
 				o = opRec{Kind: "SetNet", K: k, Net: r.Intn(len(nets))}
 			case x < 69:
 				o = opRec{Kind: "String", K: k}
-			case x < 76:
+			case x < 77:
 				o = opRec{Kind: "ECPubKey", K: k}
-			case x < 81:
+			case x < 82:
 				o = opRec{Kind: "ECPrivKey", K: k}
-			case x < 87:
+			case x < 88:
 				o = opRec{Kind: "Address", K: k}
+			case room:
+				o = genCreator(r)
 			default:
-				o = creator()
+				o = opRec{Kind: "SetNet", K: k, Net: r.Intn(len(nets))}
 			}
 		}
-		// keep the pool within bounds: count creations by executing the candidate prefix
-		trial := append(append([]opRec(nil), ops...), o)
-		rr := runHistory(trial, false, false)
-		n := 0
-		for _, out := range rr.outs {
-			if out.kind == "Created" {
-				n++
-			}
+		before := len(e.pool)
+		e.apply(o)
+		ops = append(ops, o)
+		if len(e.pool) > before {
+			lastCreated = len(e.pool) - 1
 		}
-		if n > maxPool {
-			continue
-		}
-		ops, poolSize = trial, n
 	}
-	return ops
+	return ops, e.res
 }
 
 var histCount, liveObs int
 
 func runAndRecord(ops []opRec, family string, corr bool) {
-	r := runHistory(ops, corr, true)
+	record(ops, runHistory(ops, corr, true), family, corr)
+}
+
+func record(ops []opRec, r runResult, family string, corr bool) {
 	histCount++
 	kinds := map[string]bool{}
 	zeroThenObserve := false
@@ -895,11 +1000,10 @@ func runAndRecord(ops []opRec, family string, corr bool) {
 	rep.Evaluations-- // the history line is a bucket, not an extra execution
 	if r.viol != nil {
 		report(ops, r.viol)
-		return
 	}
 	rep.Extra["zero_calls"] = toInt(rep.Extra["zero_calls"]) + r.zeros
 	rep.Extra["nonzero_bytes_beyond_len_in_zeroed_backing_arrays"] = toInt(rep.Extra["nonzero_bytes_beyond_len_in_zeroed_backing_arrays"]) + r.residue
-	if corr {
+	if corr && len(r.outs) == len(ops) && r.orc != nil {
 		var opsC, outsC, snapsC []string
 		var hist []string
 		for i, o := range ops {
@@ -936,6 +1040,15 @@ func fixedHistories() [][]opRec {
 		{{Kind: "FromString", Str: xpub}, {Kind: "Neuter", K: 0}, {Kind: "Child", K: 0, I: 0}, {Kind: "Child", K: 0, I: hdkeychain.HardenedKeyStart}, {Kind: "Zero", K: 0}, {Kind: "String", K: 1}, {Kind: "Neuter", K: 0}, {Kind: "Child", K: 0, I: 1}, {Kind: "ECPubKey", K: 0}, {Kind: "Address", K: 0}, {Kind: "ECPrivKey", K: 0}},
 		// memoisation: ECPubKey / Address before and after Neuter, then Zero either side
 		{{Kind: "NewMaster", Seed: seed, Net: 5}, {Kind: "ECPubKey", K: 0}, {Kind: "Neuter", K: 0}, {Kind: "Address", K: 0}, {Kind: "Zero", K: 1}, {Kind: "ECPubKey", K: 0}, {Kind: "Child", K: 0, I: 7}, {Kind: "Zero", K: 0}, {Kind: "String", K: 2}},
+		// relatives share only an immutable version: SetNet on one must not show on the others (either direction)
+		{{Kind: "NewMaster", Seed: seed}, {Kind: "Child", K: 0, I: 1}, {Kind: "SetNet", K: 0, Net: 1}, {Kind: "String", K: 1}, {Kind: "Child", K: 1, I: 2}, {Kind: "SetNet", K: 2, Net: 5}, {Kind: "String", K: 1}, {Kind: "String", K: 0}},
+		{{Kind: "NewMaster", Seed: seed}, {Kind: "Neuter", K: 0}, {Kind: "SetNet", K: 1, Net: 5}, {Kind: "NewMaster", Seed: seed + "10"}, {Kind: "Neuter", K: 2}, {Kind: "String", K: 3}, {Kind: "SetNet", K: 0, Net: 1}, {Kind: "Neuter", K: 0}, {Kind: "String", K: 4}},
+		{{Kind: "FromString", Str: xprv}, {Kind: "Child", K: 0, I: hdkeychain.HardenedKeyStart + 44}, {Kind: "Child", K: 1, I: 0}, {Kind: "SetNet", K: 1, Net: 5}, {Kind: "String", K: 0}, {Kind: "String", K: 2}, {Kind: "SetNet", K: 2, Net: 1}, {Kind: "String", K: 1}},
+		{{Kind: "NewExt", Ver: "0488ade4", Key: "00000000000000000000000000000000000000000000000000000000000000aa", CC: strings.Repeat("cc", 32), FP: "01020304", Depth: 3, Num: 9, Priv: true}, {Kind: "Child", K: 0, I: 1}, {Kind: "SetNet", K: 0, Net: 1}, {Kind: "String", K: 1}, {Kind: "Neuter", K: 0}, {Kind: "SetNet", K: 1, Net: 5}, {Kind: "String", K: 0}, {Kind: "Zero", K: 0}, {Kind: "String", K: 2}},
+		// raw memory after Zero: private key with a memoised public key, public keys (33-byte buffers)
+		{{Kind: "NewMaster", Seed: seed}, {Kind: "ECPubKey", K: 0}, {Kind: "Zero", K: 0}},
+		{{Kind: "NewMaster", Seed: seed}, {Kind: "Neuter", K: 0}, {Kind: "Zero", K: 1}, {Kind: "Address", K: 0}, {Kind: "Zero", K: 0}},
+		{{Kind: "FromString", Str: xpub}, {Kind: "Child", K: 0, I: 3}, {Kind: "Zero", K: 1}, {Kind: "Zero", K: 0}},
 		// bad inputs do not create keys
 		{{Kind: "NewMaster", Seed: "0001"}, {Kind: "FromString", Str: xprv[:len(xprv)-1] + "j"}, {Kind: "FromString", Str: "xprv"}, {Kind: "NewMaster", Seed: seed}, {Kind: "Child", K: 0, I: 3}},
 	}
@@ -943,6 +1056,7 @@ func fixedHistories() [][]opRec {
 
 func main() {
 	cfg = vh.ParseFlags("C15")
+	saveGlobals()
 	rep = vh.NewReport(cfg)
 	rep.Rule = "random histories over a pool of at most 4..6 extended keys (NewMaster / NewKeyFromString / NewExtendedKey on fresh buffers / Child / Neuter / SetNet / Zero / String / ECPubKey / ECPrivKey / Address), every key observed after every step; implementation executions = operations applied; a history is non-trivial when it uses at least three kinds of operation and applies some operation after a Zero; distinct by the operation sequence"
 	cases = vh.NewCases(cfg, "Run.Run_C15", 12)
@@ -968,10 +1082,10 @@ func main() {
 		runAndRecord(h, "fixed", !cfg.Search)
 	}
 	r := rng.Fork("histories")
-	nCorr := cfg.Scale(40, 160)
-	nMon := cfg.Scale(400, 4000)
+	nCorr := cfg.Scale(40, 120)
+	nMon := cfg.Scale(500, 2500)
 	if cfg.Search {
-		nCorr, nMon = 0, 6000
+		nCorr, nMon = 0, 3000
 	}
 	for i := 0; i < nMon; i++ {
 		steps := 6 + r.Intn(13)
@@ -980,7 +1094,8 @@ func main() {
 		if corr {
 			steps = 5 + r.Intn(8)
 		}
-		runAndRecord(genHistory(r, steps, maxPool), "random", corr)
+		ops, res := genHistory(r, steps, maxPool, corr)
+		record(ops, res, "random", corr)
 	}
 	rep.Extra["histories"] = histCount
 	rep.Cases = cases.Len()
